@@ -34,6 +34,7 @@ def gen_members(ch, n, axis, retain):
     shared = (COLL if axis == 0 else ROWL)[:shared_n]
     kinds = [ch.choice(['int', 'float', 'str', 'bool', 'int']) for _ in range(shared_n)]
     mixed = ch.chance(0.2)
+    names = ch.shuffled(['m%d' % i for i in range(n)]) if ch.chance(0.5) else ['m%d' % i for i in range(n)]  # Bus order need not be sorted order
     out = []
     used = 0
     for m in range(n):
@@ -57,7 +58,7 @@ def gen_members(ch, n, axis, retain):
                 base = 1000 * m + 10 * i + j
                 row.append(base if kd == 'int' else base + 0.5 if kd == 'float' else 's%d' % base if kd == 'str' else base % 2 == 0)
             rows.append(row)
-        out.append({'name': 'm%d' % m, 'index': own if axis == 0 else shared, 'columns': shared if axis == 0 else own, 'rows': rows})
+        out.append({'name': names[m], 'index': own if axis == 0 else shared, 'columns': shared if axis == 0 else own, 'rows': rows})
     return out
 
 
